@@ -268,9 +268,9 @@ structure PTables where
   numSymbols : Nat          -- `symbols.NumSymbols()`: width of an action row in the generated code
 deriving Repr, Inhabited
 
-/-- `Item.canRecover` (after the D7 fix): `X : •error w` -/
+/-- `Item.canRecover` (after fix D19): the error symbol stands right after the dot, `X : v •error w` -/
 def itemCanRecover (C : LRCtx) (i : Item) : Bool :=
-  C.len i > 0 && i.d == 0 && (C.body i).head? == some "error"
+  i.d < C.len i && (C.body i)[i.d]? == some "error"
 
 structure LRResult where
   ctx : LRCtx
